@@ -13,7 +13,7 @@ META = {
                    '(I) under fresh symbolic SVD outputs every core of u is reshape(U) of an SVD of the carried left unfolding (left '
                    'isometry by contract), every core of v is reshape(Vh) (first one: Vh times a right-orthonormal core), s is the '
                    'sorted non-negative vector of the middle SVD (leading part under threshold/max_rank, forked paths); pinv == u . '
-                   'diag(1/s) . v with the same factors; (S) inputs unchanged unless overwrite, metadata consistent.',
+                   'diag(1/s) . v with the same factors; (S) inputs unchanged unless overwrite, metadata consistent. pinv is run for all four combinations of the ortho flags; in concrete replays a switched-off flag is honoured by handing over a representation that is already orthonormal on that side (NumPy QR), and orthonormality of u, v, the singular values and the Moore-Penrose identity are then checked for every combination.',
     'bounds': {'quick': 'orders 2-4, row sizes {1,2}, col sizes 1, ranks {1,2,3}, all split indices, real and complex',
                'thorough': 'larger subset, row size 3'},
     'outside': ['"singular values coincide with those of the unfolding" and "equals the conjugate-transposed Moore-Penrose inverse" follow from '
